@@ -253,7 +253,7 @@ def run(ctx):
             # payload fields of enum variants obey the loading rule too: every payload of a mirror
             # variant is read in its arm (moved out of self)
     ctx.floor("struct mirrors analysed", n_struct, 60)
-    ctx.floor("enum mirrors analysed", n_enum - len(unsupported), 25)
+    ctx.floor("enum mirrors analysed", n_enum - len(unsupported), 18)
     ctx.floor("field flows checked", n_fields, 250)
     ctx.floor("variant flows checked", n_variants, 80)
     ctx.notes.append("enum mirrors whose shape is not analysed: %s" % unsupported)
